@@ -193,6 +193,11 @@ def name_grammar(W):
         ("long-component", "d" * 300 + ".txt"), ("long-path", "ab/" * 150 + "x.txt"), ("long-ok", "e" * 200 + ".txt"),
         ("hidden", ".hidden.txt"), ("hidden-sub", "d/.x.txt"), ("macosx", "__MACOSX/a.txt"), ("macosx-fork", "__MACOSX/._a.txt"),
         ("fork", "._a.txt"), ("unsupported", "x.exe"), ("noext", "noext"), ("unsupported-bin", "d/x.bin"),
+        ("mix-bs-dotdot-1", "a\\../..\\b.txt"), ("mix-bs-dotdot-canary", "..\\../canary/secret.txt"),
+        ("mix-bs-dotdot-deep", "a/..\\..\\../canary\\secret.txt"), ("mix-bs-lead", "\\..\\/x.txt"),
+        ("mix-bs-sub", "sub\\..\\..\\evil.txt"), ("mix-slash-bs", "../\\../evil.txt"),
+        ("mix-bs-slash-canary", "..\\/..\\/canary/secret.txt"), ("mix-dotdot-bs-tail", "d/../..\\"),
+        ("mix-bs-then-dotdot", "x\\/../../../canary/secret.txt"), ("mix-dot-bs", ".\\./..\\../evil.md"),
         ("collide", "a.txt"), ("file-as-dir", "a.txt/inner.txt"), ("upper", "UP.TXT"),
     ]
     return g
@@ -228,11 +233,12 @@ def nested_payload(name, token):
     return raw
 
 
-def build_archive(kind, members, rng, layout=None):
+def build_archive(kind, members, rng, layout=None, zip_method=None):
     """members: list of dicts {name, data|None, tartype?, link?, lie?, attr?}"""
     if kind == "zip":
         b = io.BytesIO()
-        with zipfile.ZipFile(b, "w", rng.choice([zipfile.ZIP_STORED, zipfile.ZIP_DEFLATED])) as z:
+        with zipfile.ZipFile(b, "w", zip_method if zip_method is not None else
+                             rng.choice([zipfile.ZIP_STORED, zipfile.ZIP_DEFLATED])) as z:
             for m in members:
                 zi = zipfile.ZipInfo(m["name"] if m["name"] else "")
                 if m.get("data") is None:
@@ -285,17 +291,26 @@ def make_cases(ctx, W):
     cases, meta = [], {}
     cid = [0]
 
-    def add(kind, members, actions, limits=None, count=False, label=""):
+    def add(kind, members, actions, limits=None, count=False, label="", layout=None, zip_method=None, recipe=None):
         cid[0] += 1
         i = cid[0]
-        layout = rng.choice(["solid", "solid", "per-file"]) if kind == "7z" else None
+        if layout is None:
+            layout = rng.choice(["solid", "solid", "per-file"]) if kind == "7z" else None
         try:
-            data = build_archive(kind, members, rng, layout)
+            data = build_archive(kind, members, rng, layout, zip_method)
         except Exception as e:  # a name the container cannot hold (e.g. NUL, surrogates in zip)
             ctx.count("unbuildable:" + kind)
             return None
-        c = {"id": i, "kind": kind, "hex": data.hex(), "actions": actions, "path": "A." + kind,
-             "count_entries": count}
+        c = {"id": i, "kind": kind, "actions": actions, "path": "A." + kind, "count_entries": count}
+        if len(data) > 200000:
+            os.makedirs(os.path.join(W, "big"), exist_ok=True)
+            c["file"] = os.path.join(W, "big", f"{i}.bin")
+            with open(c["file"], "wb") as fh:
+                fh.write(data)
+        else:
+            c["hex"] = data.hex()
+        if recipe:
+            c["recipe"] = recipe
         if limits:
             c["limits"] = limits
         cases.append(c)
@@ -347,6 +362,40 @@ def make_cases(ctx, W):
         edge = member("plain", "edge.txt", 3)
         edge["data"] = (edge["data"] + b" " + b"z" * 1500)[:1500]
         add(kind, [member("plain", "ok.txt", 0), big, mid, edge], ["exhaust"], limits=[2000, 1500], label="limits")
+    # 5b. the size rule at its boundary: limit L lowered through configure_archive_extraction, L a multiple of a
+    #     MiB or not, member sizes around L, around the next MiB step, and 2L.  Payloads are highly compressible.
+    MiB = 1024 * 1024
+    from sharepoint2text.parsing.extractors import archive_extractor as _ax
+    real_entry = int(_ax.MAX_ARCHIVE_FILE_SIZE)
+    Ls = [1000, 4096, MiB + 3] + ([MiB, 2 * MiB, 3 * MiB - 1, 70000] if ctx.tier == "thorough" else [])
+    variants = [("zip", zipfile.ZIP_STORED), ("zip", zipfile.ZIP_DEFLATED), ("tar", None), ("tar.gz", None), ("7z", None)]
+    if ctx.tier == "thorough":
+        variants += [("tar.bz2", None), ("tar.xz", None)]
+    for L in Ls:
+        sizes = [L - 1, L, L + 1, L + MiB - 1, 2 * L] + ([L + MiB, MiB * ((L // MiB) + 1) - 1] if ctx.tier == "thorough" else [])
+        for kind, zm in variants:
+            if kind == "7z" and L > MiB + 3:
+                continue                      # copy coder: keep the archive at a few MB
+            ms = []
+            for j, n in enumerate(sizes):
+                mm = member("plain" if n <= L else "oversize-declared", f"s{j}_{n}.txt", j)
+                mm["data"] = (mm["token"].encode() + b" " + b"x" * n)[:n]
+                ms.append(mm)
+            add(kind, ms, ["exhaust"], limits=[L, real_entry], label="boundary", layout="solid" if kind == "7z" else None,
+                zip_method=zm, recipe={"limit": L, "sizes": sizes, "zip_method": zm,
+                                       "payload": "token + b' ' + b'x'*n truncated to n bytes, names s<j>_<n>.txt"})
+    # 5c. tar link / special members aimed at an oversize member or at a host file: never read, never a result
+    can0 = os.path.join(W, "canary", "secret.txt")
+    for kind in ["tar", "tar.gz"]:
+        bigm = member("oversize-declared", "big.txt", 0)
+        bigm["data"] = (bigm["token"].encode() + b" " + b"x" * 5000)[:5000]
+        ms = [bigm, member("tar-hard", "hl.txt", 1, tartype="hard", link="big.txt"),
+              member("tar-sym", "sl.txt", 2, tartype="sym", link="big.txt"),
+              member("tar-hard", "hl_out.txt", 3, tartype="hard", link=can0),
+              member("tar-sym", "sl_out.md", 4, tartype="sym", link="../../canary/secret.txt"),
+              member("tar-fifo", "ff.txt", 5, tartype="fifo"), member("tar-chr", "dev.txt", 6, tartype="chr"),
+              member("plain", "after.txt", 7)]
+        add(kind, ms, ["exhaust"], limits=[3000, real_entry], label="tar-links-oversize")
     # 6. consumer behaviours on multi-member archives (7z: with a pre-run that records the oracle `yields`)
     n_hist = ctx.n(2, 6)
     for r in range(n_hist):
@@ -453,10 +502,14 @@ def judge(ctx, c, m, res, token, roots, router_info):
     made = [e["path"] for e in res["events"] if e["ev"] == "os.mkdir" and isinstance(e["path"], str)
             and os.path.dirname(e["path"]) == root and not e.get("existed")]
     tds = made
-    replay = {"archive_kind": kind, "archive_hex": c["hex"] if len(c["hex"]) < 20000 else c["hex"][:20000] + "...",
+    hx = c.get("hex")
+    replay = {"archive_kind": kind, "archive_hex": (hx if len(hx) < 20000 else hx[:20000] + "...") if hx else None,
+              "recipe": c.get("recipe"),
               "actions": m["actions"], "members": [{k: (v.decode("latin1") if isinstance(v, bytes) else v) for k, v in mm.items()
                                                    if k in ("cls", "name", "lie", "tartype", "link")} for mm in m["members"]],
-              "limits": m["limits"], "how": "io.BytesIO(bytes.fromhex(archive_hex)) -> read_archive(.., path='A.<kind>'), consumer = actions"}
+              "limits": m["limits"], "how": "configure_archive_extraction(max_memory_size=limits[0]) if limits; archive = bytes.fromhex(archive_hex), or (large "
+                     "archives) rebuilt from `recipe`: members s<j>_<n>.txt of exactly n bytes in a <archive_kind> container; "
+                     "read_archive(io.BytesIO(archive), path='A.<kind>'); consumer = actions"}
     n_code = 0
     for e in res["events"]:
         ev, p = e["ev"], e["path"]
@@ -533,14 +586,21 @@ def judge(ctx, c, m, res, token, roots, router_info):
                 rule = "nested-archive-by-router"
             elif mm.get("attr") is not None and mm["attr"] & 0x10:
                 rule = None
-            elif m["limits"] and len(mm["data"]) > min(m["limits"]):
+            elif m["limits"] and len(mm["data"]) > min(m["limits"]):      # exact: size > limit
                 rule = "oversize"
+                if m["label"] == "boundary":
+                    rule = "oversize-boundary"
             else:
                 rule = None
         if rule and mm["token"] in alltext:
             ext = os.path.splitext(bn.lower())[1] or bn.lower()
-            ctx.finding(f"skip:{rule}:{ext}", f"member {nm!r} ({rule}) of a {kind} archive produced a result",
-                        dict(replay, member=nm, rule=rule))
+            if rule == "oversize-boundary":
+                ctx.finding(f"skip:oversize-boundary:{kind}", f"member {nm!r} of {len(mm['data'])} bytes produced a result from a "
+                            f"{kind} archive although max_memory_size={m['limits'][0]} (oversize members never produce results)",
+                            dict(replay, member=nm, size=len(mm["data"]), max_memory_size=m["limits"][0], rule=rule))
+            else:
+                ctx.finding(f"skip:{rule}:{ext}", f"member {nm!r} ({rule}) of a {kind} archive produced a result",
+                            dict(replay, member=nm, rule=rule))
     return tds
 
 
@@ -626,6 +686,7 @@ def run(ctx):
 
     path_cases, sj_cases, skip_cases, z7_cases, fl_cases, life_cases = [], [], [], [], [], []
     z7_info, life_info, skip_info = [], [], []
+    size_cases, size_info = [], []
     herr = []
     pre_prog = {}
     for c in cases:
@@ -665,6 +726,13 @@ def run(ctx):
                     mt = None
                 skip_cases.append(f"({coq_str(fn)}, {coq_str(bn)}, {coq_str(bl)}, {coq_opt(mt, coq_str)}, {coq_bool(sk)})")
                 skip_info.append(fn)
+        if m["label"] == "boundary":
+            alltext = "\n".join(x for ts in r["texts"] for x in ts)
+            for mm in m["members"]:
+                n = len(mm["data"])
+                size_cases.append(f"({coq_Z(r['max_mem'])}, {coq_Z(r['max_entry'])}, {coq_Z(n)}, {coq_Z(n)}, "
+                                  f"{coq_bool(mm['token'] in alltext)})")
+                size_info.append((m["kind"], c.get("recipe", {}).get("zip_method"), r["max_mem"], n))
         if m["kind"] != "7z":
             continue
         fls = [t[1] for t in r["trace"] if t[0] == "filelist"]
@@ -785,6 +853,7 @@ def run(ctx):
     corr("should_skip", "(skip_case T NE ARCHIVE)", sc2, "str * str * str * option str * bool", info=si2, shard=150)
     corr("sevenzip_filelist", "filelist_case", fl_cases, "hdr * list (str * Z * bool) * list (option nat)", shard=200)
     corr("sevenzip_fs_events", "case7z_ok", z7_cases, "case7z", info=z7_info, shard=100)
+    corr("size_rule", "(size_case T NE ARCHIVE)", size_cases, "Z * Z * Z * Z * bool", info=size_info, shard=300)
     corr("lifecycle", "life_case", life_cases, "prog * list action * list (Z * bool)", info=life_info, shard=300)
 
 
